@@ -191,6 +191,45 @@ def run(ck: Check) -> None:
         if got != gen.oracle_bytes(v):
             ck.violation("file written is not the canonical serialization", {"value": proto.enc(v)[:500]}, "write")
 
+    # 6b. the byte string that is *signed* is that same function of the value: whatever route a value takes to the signer (serialize_and_sign, sign_signable on a
+    # wrapped payload, an artifact record inside a repodata file) and in whatever order its members — at any depth — were inserted or stored, the signature is
+    # the one over the published canonical bytes
+    from .c11 import order_to_depth
+    sk = gen.key(4)
+    priv = impl.common.PrivateKey.from_bytes(sk.seed)
+    dictvals = [v for v in wfvals if isinstance(v, dict) and any(isinstance(x, (dict, list)) and x for x in v.values())][: ck.n(200, 40)]
+    dictvals.append({"build": "0", "depends": [{"name": "b", "extra": {"z": 1, "a": 2}}], "meta": {"z": {"y": 0, "b": 1}, "m": 1, "a": [1, {"q": 1, "b": 2}]}, "name": "p"})
+    import json as _json
+    for v in dictvals:
+        want_sig = sk.sign(gen.oracle_bytes(v)).hex()
+        layouts = {"sorted-outer-1": order_to_depth(v, 1), "sorted-outer-2": order_to_depth(v, 2), "reverse": order_to_depth(v, 0), "shuffled": gen.shuffled_copy(rng, v)}
+        got = {}
+        try:
+            with impl.quiet_stdout():
+                for name, w in layouts.items():
+                    got["serialize_and_sign:" + name] = impl.signing.serialize_and_sign(w, priv)
+                    env = impl.signing.wrap_as_signable(w)
+                    impl.signing.sign_signable(env, priv)
+                    got["sign_signable:" + name] = env["signatures"][sk.hex]["signature"]
+                doc = {"info": {}, "packages": {"l-%d.tar.bz2" % j: w for j, w in enumerate(layouts.values())}, "packages.conda": {"c.conda": layouts["sorted-outer-1"]}}
+                fn = os.path.join(d, "signed-bytes.json")
+                with open(fn, "w", encoding="ascii") as f:
+                    _json.dump(doc, f)          # member order as given, no sorting
+                impl.signing.sign_all_in_repodata(fn, sk.seed.hex())
+                out = _json.load(open(fn, "rb"))
+                for art, ent in out.get("signatures", {}).items():
+                    got["sign_all_in_repodata:" + art] = (ent.get(sk.hex) or {}).get("signature")
+        except Exception as e:  # noqa: BLE001
+            ck.violation("signing a JSON value failed", {"value": proto.enc(v)[:600], "error": repr(e)[:200]}, "signed-bytes-failed")
+            continue
+        ck.evaluations += len(got)
+        ck.oracle_checks += 1
+        bad = sorted(k_ for k_, s_ in got.items() if s_ != want_sig)
+        if bad or len(got) != 2 * len(layouts) + len(layouts) + 1:
+            ck.violation("the bytes that get signed are not the canonical serialization of the value (they depend on the route to the signer or on member order at some depth)",
+                         {"value": proto.enc(v)[:800], "routes_with_other_bytes": bad[:8]}, "signed-bytes:" + (bad[0].split(":")[0] if bad else "missing"))
+            break
+
     # 7. configurations: hash seed, locale, timezone, cwd (fresh processes; digest of a seeded batch must not move)
     confs = [dict(PYTHONHASHSEED="0"), dict(PYTHONHASHSEED="1", LC_ALL="C", TZ="Pacific/Kiritimati"),
              dict(PYTHONHASHSEED="random", LC_ALL="C.UTF-8", PYTHONIOENCODING="ascii", CWD="/")]
